@@ -114,10 +114,14 @@ def two_miners(ctx, res, rng, keys, tree, rn, w, ops, impl, sig_mark, si):
     impl.append(r)
     if rn.cm.coinstate.current_chain_hash != nb.hash():
         res.count("two_miners:head-did-not-move")
-    # miner 1 asks for work
-    w.handle_request_scrypt_input_message(1, rng.randrange(0, 1 << 20))
-    ops.append("node refresh")
-    impl.append("ok")
+    # miner 1 asks for work (in every other run it does not: a single miner whose answer crosses a network block)
+    if si % 2 == 0:
+        w.handle_request_scrypt_input_message(1, rng.randrange(0, 1 << 20))
+        ops.append("node refresh")
+        impl.append("ok")
+        res.count("two_miners:other_miner_asked_in_between")
+    else:
+        res.count("two_miners:answer_crosses_network_block")
     before_frames = [list(rn.outbox_kinds(p)) for p in rn.peers]
     info = {"scenario": si, "block": cand.serialize().hex(), "network_block": nb.serialize().hex(),
             "kind_of_run": "two miners, head moved between request and answer"}
@@ -139,7 +143,13 @@ def two_miners(ctx, res, rng, keys, tree, rn, w, ops, impl, sig_mark, si):
             res.violations.append({**info, "kind": "a winning candidate answered after the head had moved is not part of the "
                                                    "served chain state"})
         if nb.hash() not in served.block_by_hash:
+            # observed on the unchanged tree when no other request refreshed the watcher's state: the watcher adds its
+            # block to the state it fetched with the request and installs that, so a block that arrived from the network
+            # in between leaves the served state (it stays in the store). Not covered by the wording of C12 (DESIGN 9.4)
             res.count("two_miners:network-block-dropped")
+            if nb.hash() in tree.own:
+                # the tree builder keeps it; nothing later in this scenario builds on it through the node
+                pass
         if cand.hash() not in rn.disk_ids() or rn.store.write_buffer:
             res.violations.append({**info, "kind": "the found block was not written to the block store"})
         for pi, p in enumerate(rn.peers):
